@@ -147,162 +147,84 @@ fn pairs_of(r: &Reply, preceded: bool, ta: &str, tb: &str, ia: &HashMap<i64, usi
     Ok(out)
 }
 
-pub fn run(a: &Args) {
-    let mut s = Stream::create(&a.out, "e2e");
-    let root = a.out.join("c15-e2e-sys");
-    let _ = std::fs::remove_dir_all(&root);
-    let mut r0 = Rng::for_case(a.seed, "e2e-cfg", 0);
-    let cfg = SysCfg { shards: 1 + r0.below(3) as usize, event_per_zone: 1 + r0.below(3) as usize, fill_factor: 1 + r0.below(2) as usize, ..SysCfg::default() };
-    s.tally(&format!("cfg:shards={},epz={},ff={}", cfg.shards, cfg.event_per_zone, cfg.fill_factor));
-    let mut sess = Session::start(&root, &cfg);
-    let mut next_id = 1i64;
-    for i in 0..a.cases {
-        let mut r = Rng::for_case(a.seed, "e2e", i);
-        if a.only.is_some_and(|o| o != i) {
-            continue;
-        }
-        let (ta, tb) = (format!("sa{i}"), format!("sb{i}"));
-        let preceded = r.chance(2, 5);
-        let distinct_times = r.chance(3, 5);
-        let na = r.below(7) as usize;
-        let nb = r.below(7) as usize;
-        let nullable = r.chance(1, 4);
-        let mut used: BTreeSet<i64> = BTreeSet::new();
-        let mut evs: Vec<Ev> = vec![];
-        for j in 0..na + nb {
-            let mut t = r.range(0, if distinct_times { 60 } else { 6 });
-            while distinct_times && used.contains(&t) {
-                t = r.range(0, 60);
-            }
-            used.insert(t);
-            evs.push(Ev {
-                b: j >= na,
-                ctx: format!("c{}", r.below(4)),
-                k: if nullable && r.chance(1, 4) { None } else { Some(1 + r.below(3) as i64 + if r.chance(1, 10) { 3 } else { 0 }) },
-                t,
-                x: r.range(0, 4),
-                s: r.pick(&["u", "v", "ab"]).to_string(),
-                id: next_id,
-            });
-            next_id += 1;
-        }
-        let wh = if r.chance(1, 2) { let d = r.below(3) as u32; Some(gen_where(&mut r, &ta, &tb, d)) } else { None };
-        let limit = if r.chance(1, 4) { Some(r.below(5) as usize) } else { None };
-        // (a RETURN list with two or more payload fields comes back with permuted cells — C07/C20 —
-        // so the only RETURN variants here are the ones that omit the link or the time field)
-        let ret: Option<Vec<&str>> = match r.below(10) {
-            0 => Some(match r.below(3) {
-                0 | 1 => vec!["id"],
-                _ => vec!["id", "k"],
-            }),
-            _ => None,
-        };
-        let ret_defect = ret.as_ref().is_some_and(|l| !l.contains(&"k") || !l.contains(&"t"));
+/// one event-type pair with its stored events and its query
+struct Job {
+    ta: String,
+    tb: String,
+    preceded: bool,
+    wh: Option<E>,
+    limit: Option<usize>,
+    ret: Option<Vec<&'static str>>,
+    evs: Vec<Ev>,
+}
 
-        // ---- drive the engine
-        let ktype = if nullable { "int | null" } else { "int" };
-        let mut dead = false;
-        for ty in [&ta, &tb] {
-            let d = format!("DEFINE {ty} FIELDS {{ k: \"{ktype}\", t: \"datetime\", x: \"int\", s: \"string\", id: \"int\" }}");
-            match sess.cmd(&d) {
-                Some(rp) if rp.ok() => {}
-                _ => dead = true,
-            }
-        }
-        let mut order: Vec<usize> = (0..evs.len()).collect();
-        r.shuffle(&mut order);
-        let mut flushes = 0;
-        for &j in &order {
-            let e = &evs[j];
-            let k = e.k.map(|k| k.to_string()).unwrap_or_else(|| "null".into());
-            let c = format!(
-                "STORE {} FOR {} PAYLOAD {{\"k\":{k},\"t\":{},\"x\":{},\"s\":\"{}\",\"id\":{}}}",
-                if e.b { &tb } else { &ta }, e.ctx, e.t, e.x, e.s, e.id
-            );
-            match sess.cmd(&c) {
-                Some(rp) if rp.ok() => {}
-                Some(rp) => {
-                    s.oracle_fail(i, "-", &format!("STORE rejected: {} -> {}", c, rp.raw));
-                    dead = true;
-                }
-                None => dead = true,
-            }
-            if r.chance(1, 6) {
-                let _ = sess.cmd("FLUSH");
-                flushes += 1;
-            }
-        }
-        if dead || !wait_visible(&mut sess, &ta, na) || !wait_visible(&mut sess, &tb, nb) {
-            s.tally("infra:session-lost-or-store-invisible");
-            s.case("skip", "skip", false);
-            s.oracle_fail(i, "-", "stored events did not become visible / session died");
-            if sess.dead {
-                sess = Session::start(&root, &cfg);
-            }
-            continue;
-        }
-        let mut q = format!("QUERY {ta} {} {tb} LINKED BY k USING TIME t", if preceded { "PRECEDED BY" } else { "FOLLOWED BY" });
-        if let Some(e) = &wh {
+struct Judged {
+    failures: Vec<(String, String)>,
+    op: String,
+    imp: String,
+    nontrivial: bool,
+    pairs: usize,
+    judged_a: usize,
+    notes: Vec<&'static str>,
+}
+
+impl Job {
+    fn ret_defect(&self) -> bool {
+        self.ret.as_ref().is_some_and(|l| !l.contains(&"k") || !l.contains(&"t"))
+    }
+    fn query(&self, with_limit: bool) -> String {
+        let mut q = format!("QUERY {} {} {} LINKED BY k USING TIME t", self.ta, if self.preceded { "PRECEDED BY" } else { "FOLLOWED BY" }, self.tb);
+        if let Some(e) = &self.wh {
             q.push_str(&format!(" WHERE {}", e.text()));
         }
-        if let Some(l) = &ret {
+        if let Some(l) = &self.ret {
             q.push_str(&format!(" RETURN [{}]", l.join(", ")));
         }
-        let q_unl = q.clone();
-        if let Some(l) = limit {
+        if let (true, Some(l)) = (with_limit, self.limit) {
             q.push_str(&format!(" LIMIT {l}"));
         }
-        let rep = sess.cmd(&q);
-        let rep_unl = if limit.is_some() { sess.cmd(&q_unl) } else { None };
-        let del_a = delivered(&mut sess, &ta, &wh);
-        let del_b = delivered(&mut sess, &tb, &wh);
+        q
+    }
 
-        // ---- specification side
-        let eva: Vec<&Ev> = evs.iter().filter(|e| !e.b).collect();
-        let evb: Vec<&Ev> = evs.iter().filter(|e| e.b).collect();
+    /// ask the engine (plain per-type queries before and after the sequence query) and judge
+    fn ask_and_judge(&self, sess: &mut Session) -> Judged {
+        let (ta, tb, wh, preceded, limit) = (&self.ta, &self.tb, &self.wh, self.preceded, self.limit);
+        let q = self.query(true);
+        let pre_a = delivered(sess, ta, wh);
+        let pre_b = delivered(sess, tb, wh);
+        let rep = sess.cmd(&q);
+        let rep_unl = if limit.is_some() { sess.cmd(&self.query(false)) } else { None };
+        let del_a = delivered(sess, ta, wh);
+        let del_b = delivered(sess, tb, wh);
+
+        let eva: Vec<&Ev> = self.evs.iter().filter(|e| !e.b).collect();
+        let evb: Vec<&Ev> = self.evs.iter().filter(|e| e.b).collect();
         let ia: HashMap<i64, usize> = eva.iter().enumerate().map(|(n, e)| (e.id, n)).collect();
         let ib: HashMap<i64, usize> = evb.iter().enumerate().map(|(n, e)| (e.id, n)).collect();
         let ra = spec_rows(&[spec_zone_of(&eva)]);
         let rb = spec_rows(&[spec_zone_of(&evb)]);
-        s.tally(if preceded { "link:preceded" } else { "link:followed" });
-        s.tally(if wh.is_some() { "where:some" } else { "where:none" });
-        s.tally(if limit.is_some() { "limit:some" } else { "limit:none" });
-        s.tally(match (&ret, ret_defect) {
-            (None, _) => "return:none",
-            (Some(_), false) => "return:with-link-and-time",
-            (Some(_), true) => "return:omits-link-or-time",
-        });
-        s.tally_n("events", evs.len() as u64);
-        s.tally_n("flush_commands", flushes);
-        if evs.iter().any(|e| e.k.is_none()) {
-            s.tally("has-null-link");
-        }
+        let ret_defect = self.ret_defect();
+        let mut j = Judged { failures: vec![], op: "skip".into(), imp: "skip".into(), nontrivial: false, pairs: 0, judged_a: 0, notes: vec![] };
 
         let parsed = match &rep {
-            Some(rp) if rp.ok() => pairs_of(rp, preceded, &ta, &tb, &ia, &ib),
+            Some(rp) if rp.ok() => pairs_of(rp, preceded, ta, tb, &ia, &ib),
             Some(rp) => Err(format!("status {} {}", rp.status_class(), rp.message)),
             None => Err("child died".into()),
         };
         let parsed_unl = match (&rep_unl, limit) {
-            (Some(rp), Some(_)) if rp.ok() => pairs_of(rp, preceded, &ta, &tb, &ia, &ib).ok(),
+            (Some(rp), Some(_)) if rp.ok() => pairs_of(rp, preceded, ta, tb, &ia, &ib).ok(),
             _ => None,
         };
         let pairs = match parsed {
             Ok(p) => p,
             Err(e) => {
-                s.case("skip", "skip", false);
                 let class = if ret_defect { "return-omits-link-or-time" } else { "-" };
-                s.tally(&format!("oracle-fail:{class}"));
-                s.oracle_fail(i, class, &format!("{e} | {q}"));
-                if sess.dead {
-                    sess = Session::start(&root, &cfg);
-                }
-                continue;
+                j.failures.push((class.into(), format!("{e} | {q}")));
+                return j;
             }
         };
-        s.tally_n("pairs", pairs.len() as u64);
+        j.pairs = pairs.len();
         // identical pair returned more than once: an a-event was delivered twice by its sub-query
-        // (visible from the passive buffer and from the segment while a flush is in flight)
         let dedup = |v: &Vec<(usize, usize)>| -> Vec<(usize, usize)> {
             let mut seen = BTreeSet::new();
             v.iter().cloned().filter(|p| seen.insert(*p)).collect()
@@ -312,27 +234,26 @@ pub fn run(a: &Args) {
         let pairs = dedup(&pairs);
         let parsed_unl = if has_dups { None } else { parsed_unl };
         if has_dups {
-            s.tally("oracle-fail:duplicate-pair");
-            s.oracle_fail(i, "duplicate-pair", &format!("the same pair is returned more than once: {raw_pairs:?} | {q}"));
+            j.failures.push(("duplicate-pair".into(), format!("the same pair is returned more than once: {raw_pairs:?} | {q}")));
         }
 
-        // ---- what the sub-queries delivered vs. the specification's filter (C02's subject)
-        let spec_a: BTreeSet<i64> = ra.iter().zip(eva.iter()).filter(|(row, _)| super::side(&wh, &ta, row)).map(|(_, e)| e.id).collect();
-        let spec_b: BTreeSet<i64> = rb.iter().zip(evb.iter()).filter(|(row, _)| super::side(&wh, &tb, row)).map(|(_, e)| e.id).collect();
+        // what the sub-queries delivered vs. the specification's filter (C02's subject)
+        let spec_a: BTreeSet<i64> = ra.iter().zip(eva.iter()).filter(|(row, _)| super::side(wh, ta, row)).map(|(_, e)| e.id).collect();
+        let spec_b: BTreeSet<i64> = rb.iter().zip(evb.iter()).filter(|(row, _)| super::side(wh, tb, row)).map(|(_, e)| e.id).collect();
         let (del_a, del_b) = match (del_a, del_b) {
             (Some(x), Some(y)) => (x, y),
             _ => {
-                s.case("skip", "skip", false);
-                s.oracle_fail(i, "-", &format!("plain per-type query failed | {q}"));
-                continue;
+                j.failures.push(("-".into(), format!("plain per-type query failed | {q}")));
+                return j;
             }
         };
-        let subquery_differs = del_a != spec_a || del_b != spec_b;
+        let stable = pre_a.as_ref() == Some(&del_a) && pre_b.as_ref() == Some(&del_b);
+        let subquery_differs = del_a != spec_a || del_b != spec_b || !stable;
         if subquery_differs {
-            s.tally("subquery-filter-differs-from-spec");
+            j.notes.push("subquery-filter-differs-from-spec");
         }
 
-        // ---- model comparison where the answer is determined: the matcher on the delivered rows
+        // model comparison where the answer is determined: the matcher on the delivered rows
         let key = |e: &Ev| e.k.map(|k| format!("i64:{k}")).unwrap_or_else(|| "str:null".into());
         let da: Vec<&Ev> = eva.iter().cloned().filter(|e| del_a.contains(&e.id)).collect();
         let db: Vec<&Ev> = evb.iter().cloned().filter(|e| del_b.contains(&e.id)).collect();
@@ -365,48 +286,220 @@ pub fn run(a: &Args) {
         ev.sort();
         let n_ev = ev.len();
         ev.dedup();
-        let determined = ret.is_none() && !ties_in_group && ev.len() == n_ev && !has_dups;
+        let pos_a: HashMap<i64, usize> = da.iter().enumerate().map(|(n, e)| (e.id, n)).collect();
+        let pos_b: HashMap<i64, usize> = db.iter().enumerate().map(|(n, e)| (e.id, n)).collect();
+        let observed_ok = pairs.iter().all(|&(pa, pb)| pos_a.contains_key(&eva[pa].id) && pos_b.contains_key(&evb[pb].id));
+        if !observed_ok {
+            j.notes.push("delivered-rows-observation-inconsistent");
+        }
+        let determined = self.ret.is_none() && !ties_in_group && ev.len() == n_ev && !has_dups && observed_ok && stable;
         if determined {
-            s.tally("compared-with-model");
+            j.notes.push("compared-with-model");
             let order: Vec<String> = earliest.keys().cloned().collect();
-            let line = super::op_line("match", &case, &order);
-            let pos_a: HashMap<i64, usize> = da.iter().enumerate().map(|(n, e)| (e.id, n)).collect();
-            let pos_b: HashMap<i64, usize> = db.iter().enumerate().map(|(n, e)| (e.id, n)).collect();
+            j.op = super::op_line("match", &case, &order);
             let mut t = vec!["ok".to_string(), pairs.len().to_string()];
             for &(pa, pb) in &pairs {
-                let (xa, xb) = (pos_a.get(&eva[pa].id).map(|n| n.to_string()).unwrap_or("?".into()), pos_b.get(&evb[pb].id).map(|n| n.to_string()).unwrap_or("?".into()));
+                let (xa, xb) = (pos_a[&eva[pa].id], pos_b[&evb[pb].id]);
                 t.push(if preceded { format!("0.{xb}>0.{xa}") } else { format!("0.{xa}>0.{xb}") });
             }
-            s.case(&line, &t.join(" "), !pairs.is_empty());
+            j.imp = t.join(" ");
+            j.nontrivial = !pairs.is_empty();
         } else {
-            s.tally("not-compared:ties-or-return");
-            s.case("skip", "skip", false);
+            j.notes.push("not-compared:ties-or-return-or-unstable");
         }
 
-        // ---- oracle
-        let v = oracle(preceded, "t", "k", &ta, &tb, &wh, limit, &ra, &rb, &pairs, parsed_unl.as_deref(), true, !(has_dups && limit.is_some()));
-        s.tally_n("oracle:a_events_judged", v.judged_a as u64);
-        if v.failures.is_empty() {
+        // oracle
+        let v = oracle(preceded, "t", "k", ta, tb, wh, limit, &ra, &rb, &pairs, parsed_unl.as_deref(), true, !(has_dups && limit.is_some()));
+        j.judged_a = v.judged_a;
+        let mut by_class: BTreeMap<String, String> = BTreeMap::new();
+        for (cl, d) in v.failures {
+            let cl = if ret_defect {
+                "return-omits-link-or-time".to_string()
+            } else if subquery_differs && cl != "null-link-grouped" {
+                "subquery-filter-differs".to_string()
+            } else {
+                cl
+            };
+            by_class.entry(cl).or_insert(d);
+        }
+        let data: Vec<String> = self
+            .evs
+            .iter()
+            .map(|e| format!("{}{}:k={:?},t={},x={},s={}", if e.b { "b" } else { "a" }, e.id, e.k, e.t, e.x, e.s))
+            .collect();
+        for (cl, d) in by_class {
+            j.failures.push((cl, format!("{d} | {q} | {} | answer {:?}", data.join(" "), pairs)));
+        }
+        j
+    }
+}
+
+fn await_flush(sess: &mut Session) {
+    let _ = sess.ctl(serde_json::json!({"ctl": "await_flush"}));
+}
+
+pub fn run(a: &Args) {
+    let mut s = Stream::create(&a.out, "e2e");
+    // a fresh engine (own directory, own configuration) every BLOCK cases keeps sessions small
+    const BLOCK: u64 = 50;
+    let new_session = |block: u64, s: &mut Stream| -> (std::path::PathBuf, SysCfg, Session) {
+        let root = a.out.join(format!("c15-e2e-sys-{block}"));
+        let _ = std::fs::remove_dir_all(&root);
+        let mut r0 = Rng::for_case(a.seed, "e2e-cfg", block);
+        let cfg = SysCfg { shards: 1 + r0.below(3) as usize, event_per_zone: 1 + r0.below(3) as usize, fill_factor: 1 + r0.below(2) as usize, ..SysCfg::default() };
+        s.tally(&format!("cfg:shards={},epz={},ff={}", cfg.shards, cfg.event_per_zone, cfg.fill_factor));
+        let sess = Session::start(&root, &cfg);
+        (root, cfg, sess)
+    };
+    let mut cur_block = u64::MAX;
+    let (mut root, mut cfg, mut sess) = new_session(a.only.unwrap_or(0) / BLOCK, &mut s);
+    let mut next_id = 1i64;
+    for i in 0..a.cases {
+        let mut r = Rng::for_case(a.seed, "e2e", i);
+        if a.only.is_some_and(|o| o != i) {
+            continue;
+        }
+        if cur_block == u64::MAX {
+            cur_block = i / BLOCK;
+        } else if i / BLOCK != cur_block {
+            cur_block = i / BLOCK;
+            sess.shutdown();
+            let _ = std::fs::remove_dir_all(&root);
+            (root, cfg, sess) = new_session(cur_block, &mut s);
+        }
+        let (ta, tb) = (format!("sa{i}"), format!("sb{i}"));
+        let preceded = r.chance(2, 5);
+        let distinct_times = r.chance(3, 5);
+        let na = r.below(7) as usize;
+        let nb = r.below(7) as usize;
+        let nullable = r.chance(1, 4);
+        let mut used: BTreeSet<i64> = BTreeSet::new();
+        let mut evs: Vec<Ev> = vec![];
+        for jx in 0..na + nb {
+            let mut t = r.range(0, if distinct_times { 60 } else { 6 });
+            while distinct_times && used.contains(&t) {
+                t = r.range(0, 60);
+            }
+            used.insert(t);
+            evs.push(Ev {
+                b: jx >= na,
+                ctx: format!("c{}", r.below(4)),
+                k: if nullable && r.chance(1, 4) { None } else { Some(1 + r.below(3) as i64 + if r.chance(1, 10) { 3 } else { 0 }) },
+                t,
+                x: r.range(0, 4),
+                s: r.pick(&["u", "v", "ab"]).to_string(),
+                id: next_id,
+            });
+            next_id += 1;
+        }
+        let wh = if r.chance(1, 2) { let d = r.below(3) as u32; Some(gen_where(&mut r, &ta, &tb, d)) } else { None };
+        let limit = if r.chance(1, 4) { Some(r.below(5) as usize) } else { None };
+        // (a RETURN list with two or more payload fields comes back with permuted cells — C07/C20 —
+        // so the only RETURN variants here are the ones that omit the link or the time field)
+        let ret: Option<Vec<&'static str>> = match r.below(10) {
+            0 => Some(match r.below(3) {
+                0 | 1 => vec!["id"],
+                _ => vec!["id", "k"],
+            }),
+            _ => None,
+        };
+        // racing: the query is sent while automatic flushes may still be in flight
+        let racing = r.chance(1, 8);
+        let job = Job { ta: ta.clone(), tb: tb.clone(), preceded, wh, limit, ret, evs };
+
+        // ---- drive the engine
+        let ktype = if nullable { "int | null" } else { "int" };
+        let mut dead = false;
+        for ty in [&ta, &tb] {
+            let d = format!("DEFINE {ty} FIELDS {{ k: \"{ktype}\", t: \"datetime\", x: \"int\", s: \"string\", id: \"int\" }}");
+            match sess.cmd(&d) {
+                Some(rp) if rp.ok() => {}
+                _ => dead = true,
+            }
+        }
+        let mut order: Vec<usize> = (0..job.evs.len()).collect();
+        r.shuffle(&mut order);
+        let mut flushes = 0;
+        for &jx in &order {
+            let e = &job.evs[jx];
+            let k = e.k.map(|k| k.to_string()).unwrap_or_else(|| "null".into());
+            let c = format!(
+                "STORE {} FOR {} PAYLOAD {{\"k\":{k},\"t\":{},\"x\":{},\"s\":\"{}\",\"id\":{}}}",
+                if e.b { &tb } else { &ta }, e.ctx, e.t, e.x, e.s, e.id
+            );
+            match sess.cmd(&c) {
+                Some(rp) if rp.ok() => {}
+                Some(rp) => {
+                    s.oracle_fail(i, "-", &format!("STORE rejected: {} -> {}", c, rp.raw));
+                    dead = true;
+                }
+                None => dead = true,
+            }
+            if r.chance(1, 6) {
+                let _ = sess.cmd("FLUSH");
+                flushes += 1;
+            }
+        }
+        if dead || !wait_visible(&mut sess, &ta, na) || !wait_visible(&mut sess, &tb, nb) {
+            s.tally("infra:session-lost-or-store-invisible");
+            s.case("skip", "skip", false);
+            s.oracle_fail(i, "-", "stored events did not become visible / session died");
+            if sess.dead {
+                sess = Session::start(&root, &cfg);
+            }
+            continue;
+        }
+        s.tally(if preceded { "link:preceded" } else { "link:followed" });
+        s.tally(if job.wh.is_some() { "where:some" } else { "where:none" });
+        s.tally(if job.limit.is_some() { "limit:some" } else { "limit:none" });
+        s.tally(match (&job.ret, job.ret_defect()) {
+            (None, _) => "return:none",
+            (Some(_), false) => "return:with-link-and-time",
+            (Some(_), true) => "return:omits-link-or-time",
+        });
+        s.tally(if racing { "mode:racing-with-flush" } else { "mode:flushes-settled" });
+        s.tally_n("events", job.evs.len() as u64);
+        s.tally_n("flush_commands", flushes);
+        if job.evs.iter().any(|e| e.k.is_none()) {
+            s.tally("has-null-link");
+        }
+
+        if !racing {
+            await_flush(&mut sess);
+        }
+        let mut j = job.ask_and_judge(&mut sess);
+        if racing && !j.failures.is_empty() {
+            // was it the flush in flight? ask again once everything has settled
+            await_flush(&mut sess);
+            let j2 = job.ask_and_judge(&mut sess);
+            if j2.failures.is_empty() {
+                for f in j.failures.iter_mut() {
+                    if f.0 != "duplicate-pair" {
+                        f.0 = "in-flight-flush-visibility".into();
+                    }
+                }
+                j.op = "skip".into();
+                j.imp = "skip".into();
+                j.nontrivial = false;
+            } else {
+                j = j2;
+            }
+        }
+        if sess.dead {
+            sess = Session::start(&root, &cfg);
+        }
+        for n in &j.notes {
+            s.tally(n);
+        }
+        s.tally_n("pairs", j.pairs as u64);
+        s.tally_n("oracle:a_events_judged", j.judged_a as u64);
+        s.case(&j.op, &j.imp, j.nontrivial);
+        if j.failures.is_empty() {
             s.oracle_ok();
         } else {
-            let mut by_class: BTreeMap<String, String> = BTreeMap::new();
-            for (cl, d) in v.failures {
-                let cl = if ret_defect {
-                    "return-omits-link-or-time".to_string()
-                } else if subquery_differs && cl != "null-link-grouped" {
-                    "subquery-filter-differs".to_string()
-                } else {
-                    cl
-                };
-                by_class.entry(cl).or_insert(d);
-            }
-            for (cl, d) in by_class {
+            for (cl, d) in &j.failures {
                 s.tally(&format!("oracle-fail:{cl}"));
-                let data: Vec<String> = evs
-                    .iter()
-                    .map(|e| format!("{}{}:k={:?},t={},x={},s={}", if e.b { "b" } else { "a" }, e.id, e.k, e.t, e.x, e.s))
-                    .collect();
-                s.oracle_fail(i, &cl, &format!("{d} | {q} | {} | answer {:?}", data.join(" "), pairs));
+                s.oracle_fail(i, cl, d);
             }
         }
         let _ = hexs;
